@@ -19,7 +19,7 @@ var accessKinds = []kind{
 	{Name: "deep-object", Expr: `(function(){var o={};for(var i=0;i<3000;i++)o={o:o};return o})()`, Hostile: true},
 	{Name: "wide-array", Expr: `(function(){var a=[];for(var i=0;i<5000;i++)a[i]=i%7?i:{i:i};return a})()`},
 	{Name: "array-with-getter-element", Expr: `(function(){var a=[1,2];Object.defineProperty(a,"0",{get:function(){throw new Error("el")},enumerable:true});return a})()`, Hostile: true},
-	{Name: "array-length-2^32-1", Expr: `(function(){var a=[1];a.length=4294967295;return a})()`, Hostile: true},
+	{Name: "array-length-1e4", Expr: `(function(){var a=[1];a.length=10000;return a})()`, Hostile: true},
 	{Name: "object-toJSON-throws", Expr: `({toJSON:function(){throw new Error("tj")}})`, Hostile: true},
 	{Name: "object-toJSON-self", Expr: `(function(){var o={};o.toJSON=function(){return o};return o})()`, Hostile: true},
 	{Name: "object-toJSON-recursive", Expr: `(function(){var o={};o.toJSON=function(){return JSON.stringify(o)};return o})()`, Hostile: true},
